@@ -247,6 +247,14 @@ def check_totality(ctx, P):
             if n_op is None:
                 ctx.ob("a.length", "len-operand|%s" % f.name, False, "cannot locate the reported length of an accepted telegram", f.loc(b, i))
                 continue
+            nt = strip_casts(strip_refs(tb.joperand(n_op)))
+            if f is fns[0] and nt[0] == "field" and nt[2] == "1":
+                # the dispatcher hands on the length reported by a sub-decoder for the same input (explicit `match` instead of `.map`)
+                x = strip_refs(nt[1])
+                if x[0] == "field" and x[2] == "0" and x[1][0] == "dc" and x[1][2] == "Ok":
+                    y = strip_refs(x[1][1])
+                    if y[0] == "field" and y[2] == "0" and y[1][0] == "dc" and y[1][2] == "Some" and _sub_decoder(y[1][1]):
+                        continue
             nok += 1
             bad = []
             for st in na.states_before(b, found[0]):
@@ -419,7 +427,7 @@ def closed_world(ctx, P, tele, data, token):
     nnone = nerr = 0
     # ---- Telegram::deserialize
     for f, none_rule, err_rule in (
-        (tele, lambda fs: len_bound(fs, is_len_buffer) == ("const", 0), tele_err),
+        (tele, lambda fs: len_bound(fs, is_len_buffer) == ("const", 0) or delegated_verdict(fs) == "None", tele_err),
         (token, lambda fs: (len_bound(fs, is_len_buffer) or ("x", 99))[0] == "const" and len_bound(fs, is_len_buffer)[1] <= 2, lambda fs: None),
         (data, data_none, data_err),
     ):
@@ -451,13 +459,44 @@ def closed_world(ctx, P, tele, data, token):
             elif kind == "other":
                 # delegation to another decoder (value of a call / map): allowed only for the decoders themselves
                 t = show(v)
-                ok = any(d.split("::")[-2] in t for d in DECODERS)
+                ok = any(d.split("::")[-2] in t for d in DECODERS) or (bool(S) and all(delegated_verdict(fs) is not None for fs in S))
                 ctx.ob("c.verdicts", "delegate|%s|%s" % (f.name, t[:60]), ok, "unrecognised way of producing the decoder verdict: " + t[:200], loc)
     ctx.anchor("`None` verdict sites", nnone, 4)
     ctx.anchor("`Some(Err)` verdict sites", nerr, 9)
 
 
+def _sub_decoder(t):
+    t = strip_refs(t)
+    return t[0] == "call" and any(M.callee_matches(t[1], d) for d in DECODERS[1:]) and len(t[2]) == 1 and is_buffer_arg(t[2][0])
+
+
+def is_buffer_arg(t):
+    t = strip_refs(t)
+    return t[0] == "arg" and t[1] in ("buffer", 1)
+
+
+def delegated_verdict(fs):
+    """the dispatcher passes on the verdict of a sub-decoder on the same input (written as `.map(..)` or as an explicit match):
+    'None' / 'Err' / 'Ok' / None"""
+    outer = inner = None
+    for k, vs in fs.items():
+        if k[0] == "discr" and vs[0] == "in" and len(vs[1]) == 1:
+            if _sub_decoder(k[1]):
+                outer = next(iter(vs[1]))
+            else:
+                t = strip_refs(k[1])
+                if t[0] == "field" and t[2] == "0" and t[1][0] == "dc" and t[1][2] == "Some" and _sub_decoder(t[1][1]):
+                    inner = next(iter(vs[1]))
+    if outer == "None":
+        return "None"
+    if outer == "Some" and inner in ("Ok", "Err"):
+        return inner
+    return None
+
+
 def tele_err(fs):
+    if delegated_verdict(fs) == "Err":
+        return "rejected by the sub-decoder"
     for k, vs in fs.items():
         if is_buf_elem(k, idx_const(0)) and vs[0] == "notin" and vs[1] >= {FR["SD1"], FR["SD2"], FR["SD3"], FR["SD4"], FR["SC"]}:
             return "unknown start byte"
